@@ -94,6 +94,7 @@ func (fr *Frame) recv(t *ssa.UnOp, st *State, R string) {
 	el := t.X.Type().Underlying().(*types.Chan).Elem()
 	c.note("blocking channel receive yields an unconstrained value")
 	v := c.freshVal("recv", el)
+	c.assumeAllocated(st, v)
 	if t.CommaOk {
 		fr.vals[t] = Val{T: t.Type(), Tup: []Val{v, boolVal(c.fresh("recvok", SBool))}}
 	} else {
@@ -112,7 +113,9 @@ func (fr *Frame) selectInstr(t *ssa.Select, st *State, R string) {
 		for _, s := range t.States {
 			if s.Dir == types.RecvOnly {
 				el := s.Chan.Type().Underlying().(*types.Chan).Elem()
-				tup = append(tup, c.freshVal("recv", el))
+				rv := c.freshVal("recv", el)
+				c.assumeAllocated(st, rv)
+				tup = append(tup, rv)
 			} else {
 				c.note("send case in blocking select recorded without capacity check")
 			}
@@ -150,4 +153,16 @@ func (fr *Frame) selectInstr(t *ssa.Select, st *State, R string) {
 	idx := tIte(ready, bvU(0, 64), bvI(-1, 64))
 	fr.vals[t] = Val{T: t.Type(), Tup: []Val{{T: types.Typ[types.Int], L: []string{idx}}, boolVal(has), v}}
 	_ = fmt.Sprint
+}
+
+// assumeAllocated: references inside a value obtained from outside (channel receive) denote existing objects.
+func (c *Ctx) assumeAllocated(st *State, v Val) {
+	if v.T == nil {
+		return
+	}
+	for k, l := range c.leaves(v.T) {
+		if l.Sort == SRef {
+			c.assume("true", tSel(c.allocComp(st), v.L[k]))
+		}
+	}
 }
